@@ -140,7 +140,9 @@ def finish(chk, known_findings, min_obligations, extra_cov) -> int:
     backends: dict = {}
     for v in chk.vcs:
         if v.backend:
-            b = backends.setdefault(v.backend, {"count": 0, "seconds": 0.0})
+            stage = (v.detail or "").split(" ")[0]
+            label = v.backend + ("/" + stage if stage in ("linear-abstraction", "small-facts-only", "without-congruence") else "")
+            b = backends.setdefault(label, {"count": 0, "seconds": 0.0})
             b["count"] += 1
             b["seconds"] = round(b["seconds"] + v.seconds, 3)
 
